@@ -405,14 +405,17 @@ PROPS = {
                   "order with gaps of 0-40 s (also beyond the original restart time). At every instant the Loc-RIB (presence, stale "
                   "flag, LLGR_STALE) and the wire views of two observers (one LLGR-capable, one not) are compared with a reference "
                   "model of RFC 4724 / 8538 / 9494 as summarised by the property."),
-        "note": ("A second transport loss inside the restart window is generated (RFC 4724 4.2 consecutive restarts). Not generated: "
-                 "the restarting-speaker side (deferral of the server's own advertisements), GR capabilities that differ between the two sessions (forwarding bit cleared, family dropped), "
+        "note": ("A second transport loss inside the restart window is generated (RFC 4724 4.2 consecutive restarts). The restarting-speaker side "
+                 "(TestVerifC12_restart: two GR peers with the local-restarting state and generated deferral times, establishment and "
+                 "End-of-RIB instants; a GR peer gets nothing before min(all End-of-RIB received, its deferral) and the full table "
+                 "afterwards) is generated separately. Not generated: GR capabilities that differ between the two sessions (forwarding bit cleared, family dropped), "
                  "restart time 0, depreference of LLGR-stale routes against fresh ones."),
         "technique": "model-based property testing (rapid) of session-loss timelines in virtual time against a reference model of stale-route lifetime",
         "rule": ("non-trivial when the loss is graceful under the reference (routes are retained as stale) ; distinct by case hash"),
         "assumptions": [],
         "units": [
             {"pkg": S, "test": "TestVerifC12", "quick": (16, 120), "thorough": (16, 12000), "timeout_q": 1500},
+            {"pkg": S, "test": "TestVerifC12_restart", "quick": (8, 60), "thorough": (16, 800), "timeout_q": 1500},
         ],
     },
     "C17": {
